@@ -67,10 +67,10 @@ def make_groups(cat, gold, tier):
             G.append(g)
     # nOS-V task channels: task k runs on thread k; a helper thread creates type and tasks first
     g = Group("nosv-task", {"nosv": ver("nosv")}, [10, 11, 12, 14, 15, 13], rank=3,
-              helper_prefix=[("VYc", u32(7) + b"ttype\0", True), ("VTc", u32(1, 7), False), ("VTc", u32(2, 7), False)])
-    g.add("VTx", "VTx", lambda k: [(10, "push", "taskid%d" % k), (11, "push", "gid"), (12, "push", "appid"), (14, "push", "rank"),
+              helper_prefix=[("VYc", u32(7) + b"ttype\0", True), ("VYc", u32(8) + b"utype\0", True), ("VTc", u32(1, 7), False), ("VTc", u32(2, 8), False)])
+    g.add("VTx", "VTx", lambda k: [(10, "push", "taskid%d" % k), (11, "push", "gid%d" % k), (12, "push", "appid"), (14, "push", "rank"),
                                    (15, "push", "bodyid"), (13, "push", ("body", 11))], payload=lambda k: u32(k + 1, 0))
-    g.add("VTe", "VTe", lambda k: [(10, "pop", "taskid%d" % k), (11, "pop", "gid"), (12, "pop", "appid"), (14, "pop", "rank"),
+    g.add("VTe", "VTe", lambda k: [(10, "pop", "taskid%d" % k), (11, "pop", "gid%d" % k), (12, "pop", "appid"), (14, "pop", "rank"),
                                    (15, "pop", "bodyid"), (13, "pop", ("body", 11))], payload=lambda k: u32(k + 1, 0))
     G.append(g)
     if tier != "quick":
@@ -84,10 +84,10 @@ def make_groups(cat, gold, tier):
         g.add("OF]", "OF]", [(7, "unset", None)])
         G.append(g)
         g = Group("nanos6-task", {"nanos6": ver("nanos6")}, [35, 36, 38, 37], rank=2,
-                  helper_prefix=[("6Yc", u32(7) + b"ttype\0", True), ("6Tc", u32(1, 7), False), ("6Tc", u32(2, 7), False)])
-        g.add("6Tx", "6Tx", lambda k: [(35, "push", "taskid%d" % k), (36, "push", "gid"), (38, "push", "rank"), (37, "push", ("body", None))],
+                  helper_prefix=[("6Yc", u32(7) + b"ttype\0", True), ("6Yc", u32(8) + b"utype\0", True), ("6Tc", u32(1, 7), False), ("6Tc", u32(2, 8), False)])
+        g.add("6Tx", "6Tx", lambda k: [(35, "push", "taskid%d" % k), (36, "push", "gid%d" % k), (38, "push", "rank"), (37, "push", ("body", None))],
               payload=lambda k: u32(k + 1))
-        g.add("6Te", "6Te", lambda k: [(35, "pop", "taskid%d" % k), (36, "pop", "gid"), (38, "pop", "rank"), (37, "pop", ("body", None))],
+        g.add("6Te", "6Te", lambda k: [(35, "pop", "taskid%d" % k), (36, "pop", "gid%d" % k), (38, "pop", "rank"), (37, "pop", ("body", None))],
               payload=lambda k: u32(k + 1))
         G.append(g)
         # user marks: one stack type (0) and one single type (1)
